@@ -86,3 +86,7 @@ func VerifAuthenticate(ctx context.Context, conn transfer.Conn, joinCode string,
 func VerifBuildPathResolver(paths []string) (func(string) string, error) {
 	return buildPathResolver(paths)
 }
+
+func VerifBuildWebSocketURL(serverURL, joinCode, peerID, role string, maxReceivers int) (string, error) {
+	return buildWebSocketURL(serverURL, joinCode, peerID, role, maxReceivers)
+}
